@@ -61,6 +61,10 @@ pub trait Suite {
     fn coord_choose(c: Self::Coord, comms: &[Self::Comm]) -> Option<Vec<Self::Comm>>;
     fn coord_assemble(c: Self::Coord, shares: &[Self::SigShare], list: &[Self::Comm], pks: &[Self::Spk], msg: &[u8]) -> Option<Self::Sig>;
 
+    /// What a malicious dealer can send: the wire encoding of a VSS commitment list of `t` individually valid
+    /// elements whose polynomial *vanishes at identifier k* (a_0 = -sum a_j k^j), so that the evaluation every
+    /// verifier performs for signer k is the neutral element.
+    fn vss_vanishing_at(rng: &mut SimRng, t: usize, k: u64) -> Vec<u8>;
     /// Wire encoding of (group order - 1), obtained from the library's own
     /// scalar type (no copied constants).
     fn order_minus_one_wire() -> Vec<u8>;
@@ -245,6 +249,31 @@ macro_rules! impl_suite_common {
     };
 }
 
+macro_rules! impl_vanishing {
+    ($m:ident, $enc:ident) => {
+        fn vss_vanishing_at(rng: &mut SimRng, t: usize, k: u64) -> Vec<u8> {
+            use crrl::frost::$m::{Point, Scalar};
+            let ks = Scalar::from_u64(k);
+            let mut a: Vec<Scalar> = Vec::new();
+            for _ in 1..t.max(2) {
+                a.push(Scalar::decode_reduce(&rng.bytes(48)));
+            }
+            let mut a0 = Scalar::ZERO;
+            let mut kp = ks;
+            for aj in a.iter() {
+                a0 -= *aj * kp;
+                kp *= ks;
+            }
+            let mut out = Vec::new();
+            out.extend_from_slice(&Point::mulgen(&a0).$enc());
+            for aj in a.iter() {
+                out.extend_from_slice(&Point::mulgen(aj).$enc());
+            }
+            out
+        }
+    };
+}
+
 macro_rules! suite_types {
     ($m:ident) => {
         type Gsk = crrl::frost::$m::GroupPrivateKey;
@@ -274,6 +303,7 @@ impl Suite for Ed25519 {
     const NE: usize = 32;
     const SCALAR_BE: bool = false;
     suite_types!(ed25519);
+    impl_vanishing!(ed25519, encode);
     impl_suite_common!(crrl::frost::ed25519);
 
     fn order_minus_one_wire() -> Vec<u8> {
@@ -361,6 +391,7 @@ impl Suite for Ristretto255 {
     const NE: usize = 32;
     const SCALAR_BE: bool = false;
     suite_types!(ristretto255);
+    impl_vanishing!(ristretto255, encode);
     impl_suite_common!(crrl::frost::ristretto255);
 
     fn order_minus_one_wire() -> Vec<u8> {
@@ -416,6 +447,7 @@ impl Suite for Ed448 {
     const NE: usize = 57;
     const SCALAR_BE: bool = false;
     suite_types!(ed448);
+    impl_vanishing!(ed448, encode);
     impl_suite_common!(crrl::frost::ed448);
 
     fn order_minus_one_wire() -> Vec<u8> {
@@ -490,6 +522,7 @@ impl Suite for P256 {
     const NE: usize = 33;
     const SCALAR_BE: bool = true;
     suite_types!(p256);
+    impl_vanishing!(p256, encode_compressed);
     impl_suite_common!(crrl::frost::p256);
 
     fn order_minus_one_wire() -> Vec<u8> {
@@ -562,6 +595,7 @@ impl Suite for Secp256k1 {
     const NE: usize = 33;
     const SCALAR_BE: bool = true;
     suite_types!(secp256k1);
+    impl_vanishing!(secp256k1, encode_compressed);
     impl_suite_common!(crrl::frost::secp256k1);
 
     fn order_minus_one_wire() -> Vec<u8> {
